@@ -9,7 +9,8 @@
    any depth of inheritance, decorated and undecorated subclasses, every slots/order/kw_only/type_safe
    choice per class, user-written __post_init__ bodies that assign attributes of the object with
    object.__setattr__, call super().__post_init__() and return or raise), all heaps, all keyword
-   assignments, the three construction paths.
+   assignments, the three construction paths.  The FIELD VALUES of the object are tied to the request by
+   C10_candidate_fields (before the hooks) and C10_final_field_values (what the check reads / the returned instance holds).
 
    Vocabulary.  path_candidate: the object dataclasses builds before __post_init__ runs (the constructor's own
    keyword binding, replace()'s, or deep_copy_with's deep-copied arguments).  post_init_run: the whole of
@@ -60,6 +61,52 @@ Theorem C10_request_decided_by_post_init : forall check C D p st,
        (forall st' x, run_path P check C p st = (st', Ok x) -> x = r)).
 Proof. rewrite P_ref. intros. eapply path_succeeds; eassumption. Qed.
 Print Assumptions C10_request_decided_by_post_init.
+
+(* the candidate's FIELD VALUES are those of the request (Spec.spec_source, the case analysis behind Spec.spec_value:
+   spec_value_source): for every field, on all three paths - the keyword value; else, for the copy methods, the original's
+   value (the very object for copy_with, its deep copy for deep_copy_with); else the default (a fresh empty object for a
+   default_factory); else no value.  (deep_copy_with: the receiver exists and no keyword is given twice.) *)
+Theorem C10_candidate_fields : forall C p st st1 r,
+  path_candidate P C p st = (st1, Ok r) ->
+  (forall r0 kw, p = ByDeep r0 kw -> r0 < List.length (s_heap st) /\ NoDup (map fst kw)) ->
+  forall f, In f (dc_fields C) ->
+  match spec_source (s_heap st) (path_orig p) (path_kw p) f with
+  | SKw v | SDefault v => getattr (s_heap st1) r (f_name f) = Some v
+  | SOrig v =>
+    match p with
+    | ByDeep _ _ => exists v', getattr (s_heap st1) r (f_name f) = Some v' /\ is_deepcopy (s_heap st) (s_heap st1) v v'
+    | _ => getattr (s_heap st1) r (f_name f) = Some v
+    end
+  | SFactory k => exists q, getattr (s_heap st1) r (f_name f) = Some (VRef q) /\ List.length (s_heap st) <= q /\
+                            nth_error (s_heap st1) q = Some (mkObj k [] [])
+  | SNone => getattr (s_heap st1) r (f_name f) = None
+  end.
+Proof. rewrite P_ref. intros C p st st1 r Hc Hd f Hf. exact (path_candidate_fields defs C p st st1 r Hc Hd f Hf). Qed.
+Print Assumptions C10_candidate_fields.
+
+(* ... and the values the check reads / the returned instance holds are Spec.spec_final_value: what the user-written hooks
+   that ran assigned last (Spec.spec_hook_sets: Python's MRO / super() rules, no decorator program), else the candidate's *)
+Theorem C10_final_field_values : forall check C D p st st1 r st' x,
+  nearest_deco C = Some D -> init_calls_pi P D = true ->
+  path_candidate P C p st = (st1, Ok r) ->
+  run_path P check C p st = (st', Ok x) ->
+  x = r /\
+  forall n, getattr (s_heap st') r n =
+            match last_set (spec_hook_sets C) n with Some v => Some v | None => getattr (s_heap st1) r n end.
+Proof.
+  rewrite P_ref. intros check C D p st st1 r st' x HD Hi Hc H.
+  rewrite (path_outcome defs check C D p st st1 r HD Hi Hc) in H. unfold post_init_run in H.
+  destruct (pi_spec defs check C r (resolve_pi (ref_prog defs) C) (path_via p) 0 (s_heap st1)) as [[ev h2] [[]|e]] eqn:E;
+    [|discriminate].
+  inversion H as [[Ha Hb]]. subst x. split; [reflexivity|]. intro n. cbn [s_heap].
+  rewrite (resolve_sets defs check C r C (path_via p) 0 _ _ _ E).
+  assert (Ho : exists o, nth_error (s_heap st1) r = Some o).
+  { unfold path_candidate, bindM in Hc. destruct (path_args (ref_prog defs) C p st) as [s0 [args|e]]; [|discriminate].
+    destruct (candidate_spec _ _ _ _ _ Hc) as [D' [attrs [ext [_ [_ [Hh [Hr _]]]]]]]. rewrite Hh, Hr.
+    rewrite nth_error_app2, Nat.sub_diag by lia. eexists. reflexivity. }
+  destruct Ho as [o Ho]. now apply (getattr_apply_list r _ _ n o).
+Qed.
+Print Assumptions C10_final_field_values.
 
 (* ---------------------------------------------------------------- the check decides, on the heap the hooks leave *)
 (* the run of a validating class: the user-written part first (hooks_run); if it raises, that exception leaves and the
@@ -120,6 +167,33 @@ Proof.
     + reflexivity.
 Qed.
 Print Assumptions C10_instance_iff_all_contexts.
+
+(* hence "the constructor (or a copy method) given a non-conforming keyword value raises": when an instance is returned,
+   every keyword value that names a field of __init__ which no hook overwrites passed the checker in every context *)
+Theorem C10_returned_keyword_values_conform : forall check C p st st1 r st' x f v,
+  validating P C = true ->
+  path_candidate P C p st = (st1, Ok r) ->
+  (forall r0 kw, p = ByDeep r0 kw -> r0 < List.length (s_heap st) /\ NoDup (map fst kw)) ->
+  run_path P check C p st = (st', Ok x) ->
+  In f (dc_fields C) -> f_init f = true -> lookup (path_kw p) (f_name f) = Some v ->
+  last_set (spec_hook_sets C) (f_name f) = None ->
+  forall b, In b (vis_list (resolve_pi P C) (path_via p) 0) -> accepts (check b (s_heap st') (f_ann f) v) = true.
+Proof.
+  intros check C p st st1 r st' x f v Hv Hc Hd H Hf Hi Hk Hl b Hb.
+  assert (Hv' := Hv). unfold validating in Hv'. destruct (nearest_deco C) as [D|] eqn:HD; [|discriminate].
+  apply andb_true_iff in Hv' as [Hinit _].
+  destruct (C10_final_field_values check C D p st st1 r st' x HD Hinit Hc H) as [Hx Hfin]. subst x.
+  pose proof (C10_candidate_fields C p st st1 r Hc Hd f Hf) as Hcand.
+  unfold spec_source in Hcand. rewrite Hi, Hk in Hcand.
+  assert (Hg : getattr (s_heap st') r (f_name f) = Some v) by (rewrite Hfin, Hl; exact Hcand).
+  pose proof (run_validating check C p st st1 r Hv Hc) as Hrun. rewrite H in Hrun.
+  destruct (hooks_run defs check C p r (s_heap st1)) as [[e0 h2] [[]|e]] eqn:Hh; [|inversion Hrun].
+  destruct (C10_instance_iff_all_contexts check C p st st1 r e0 h2 Hv Hc Hh) as [Hiff [_ [_ Hheap]]].
+  rewrite H in Hiff, Hheap. cbn [fst snd] in *. subst h2.
+  pose proof (proj1 Hiff eq_refl b Hb) as Hall. unfold all_conform in Hall. rewrite forallb_forall in Hall.
+  specialize (Hall f Hf). now rewrite Hg in Hall.
+Qed.
+Print Assumptions C10_returned_keyword_values_conform.
 
 (* a failure of the user-written part (its own raise, AttributeError of object.__setattr__ on a class without __dict__,
    the TypeError of super() in a slots=True class, a failing inner validation) leaves as it is; no instance *)
